@@ -156,7 +156,16 @@ var reMark = regexp.MustCompile(`mark[^:]*:([0-9]+)`)
 // xLogger observes the executor's own log call sites
 type xLogger struct{ x *xRun }
 
+// Debug does what a formatting logger does: it renders its arguments, here after whatever delay
+// the schedule puts at this call site (a value that is still being written while a log call
+// holds it is then read concurrently: the race detector of the thorough tier reports it, and
+// the runtime itself may abort with "concurrent map iteration and map write")
 func (l xLogger) Debug(args ...interface{}) {
+	l.debug(args...)
+	_ = fmt.Sprint(args...)
+}
+
+func (l xLogger) debug(args ...interface{}) {
 	if len(args) == 0 {
 		return
 	}
@@ -217,7 +226,7 @@ func (l xLogger) Debug(args ...interface{}) {
 		l.x.ins = append(l.x.ins, node)
 		l.x.mu.Unlock()
 		l.x.maybeYield()
-	case strings.HasPrefix(s, "Pushing Result"), strings.HasPrefix(s, "Done."):
+	default: // "Pushing Result", "Done." and any other call site
 		l.x.maybeYield()
 	}
 }
